@@ -170,8 +170,9 @@ def run_network(case, drv):
     locs = []
     exp = network_expected(case, drv, case["edges"], kind, ess, locs)
     try:
-        if case["wrapper"] and kind != "aic" and case["pass_state_names"] is False:
+        if case["wrapper"] and kind != "aic":
             kw = {"equivalent_sample_size": float(ess)} if kind in ("bdeu", "bds") else {}
+            kw.update(c06.sn_arg(case))        # the documented state_names argument of the wrapper reaches the score
             got = float(structure_score(m, df, scoring_method=kind, **kw))
         else:
             got = float(scorer(kind, df, case, ess).score(m))
